@@ -69,11 +69,23 @@ func (r *Restoration) Apply(res *pbresource.Resource) error {
 func (r *Restoration) Commit() {
 	r.tx.Commit()
 
+	// Writers hold eventLock from their MemDB commit until they have handed the
+	// event to the publisher: wait for them, so that no event of the old
+	// database is queued after the publisher has been refreshed.
+	r.s.eventLock.Lock()
+	defer r.s.eventLock.Unlock()
+
 	r.s.mu.Lock()
 	defer r.s.mu.Unlock()
 
 	r.s.db = r.db
-	r.s.pub.RefreshTopic(eventTopic)
+
+	// The new database starts its event index from scratch, so nothing of the
+	// old one may reach the watches opened from now on: RefreshAllTopics (unlike
+	// RefreshTopic) also discards the batches that are still queued for
+	// publication, besides evicting the cached snapshots, dropping the topic
+	// buffers and closing the subscriptions. eventTopic is the only topic.
+	r.s.pub.RefreshAllTopics()
 }
 
 // Abort the restoration. It's safe to always call this in a defer statement
